@@ -1507,6 +1507,122 @@ def _desugar_literal_table_loops(fn: ast.AST) -> int:
     return n
 
 
+def expand_table_spreads(trees: Dict[str, ast.Module]) -> int:
+    """Module-level lookup tables written with `**other_table` / `**dict.fromkeys(other_table_or_list, value)` are written out
+    entry by entry (same keys, same order) when the other table is a module-level display with literal keys."""
+    n = 0
+    for tree in trees.values():
+        tables: Dict[str, ast.AST] = {}
+        for st in tree.body:
+            if not (isinstance(st, ast.Assign) and len(st.targets) == 1 and isinstance(st.targets[0], ast.Name)):
+                continue
+            v = st.value
+            if isinstance(v, ast.Dict) and any(k is None for k in v.keys):
+                keys, vals, ok = [], [], True
+                for k, x in zip(v.keys, v.values):
+                    if k is not None:
+                        keys.append(k)
+                        vals.append(x)
+                        continue
+                    src = None
+                    each = None
+                    if isinstance(x, ast.Name) and isinstance(tables.get(x.id), ast.Dict):
+                        src = tables[x.id]
+                        keys += [copy.deepcopy(kk) for kk in src.keys]
+                        vals += [copy.deepcopy(vv) for vv in src.values]
+                        continue
+                    if isinstance(x, ast.Call) and isinstance(x.func, ast.Attribute) and x.func.attr == "fromkeys" and isinstance(x.func.value, ast.Name) \
+                            and x.func.value.id == "dict" and len(x.args) == 2 and not x.keywords and isinstance(x.args[0], ast.Name) and x.args[0].id in tables \
+                            and isinstance(x.args[1], (ast.Name, ast.Attribute, ast.Constant)):
+                        src, each = tables[x.args[0].id], x.args[1]
+                        ks = src.keys if isinstance(src, ast.Dict) else src.elts
+                        keys += [copy.deepcopy(kk) for kk in ks]
+                        vals += [copy.deepcopy(each) for _ in ks]
+                        continue
+                    ok = False
+                    break
+                lits = [kk.value for kk in keys if isinstance(kk, ast.Constant)]
+                if ok and len(lits) == len(keys) and len(set(lits)) == len(lits):
+                    st.value = ast.copy_location(ast.Dict(keys=keys, values=vals), v)
+                    ast.fix_missing_locations(st)
+                    n += 1
+                    v = st.value
+            if isinstance(v, ast.Dict) and v.keys and all(isinstance(k, ast.Constant) for k in v.keys):
+                tables[st.targets[0].id] = v
+            elif isinstance(v, (ast.List, ast.Tuple)) and v.elts and all(isinstance(e, ast.Constant) for e in v.elts):
+                tables[st.targets[0].id] = v
+    return n
+
+
+def _is_pure_test(e: ast.AST) -> bool:
+    if isinstance(e, ast.Compare):
+        return True
+    if isinstance(e, ast.BoolOp):
+        return all(_is_pure_test(v) for v in e.values)
+    if isinstance(e, ast.UnaryOp) and isinstance(e.op, ast.Not):
+        return _is_pure_test(e.operand)
+    if isinstance(e, ast.Call) and isinstance(e.func, ast.Name) and e.func.id == "bool" and len(e.args) == 1 and not e.keywords:
+        return _is_pure_test(e.args[0])
+    return False
+
+
+def _desugar_bool_stores(fn: ast.AST) -> int:
+    """`ok = bool(lo < x < hi); A[i] = ok; B[i] = ok` (ok used nowhere else) - or the same test written out in consecutive element
+    stores - is `if lo < x < hi: A[i] = True; B[i] = True else: A[i] = False; B[i] = False`."""
+    n = 0
+    uses: Dict[str, int] = {}
+    for x in ast.walk(fn):
+        if isinstance(x, ast.Name):
+            uses[x.id] = uses.get(x.id, 0) + 1
+
+    def strip_bool(e):
+        while isinstance(e, ast.Call) and isinstance(e.func, ast.Name) and e.func.id == "bool" and len(e.args) == 1 and not e.keywords:
+            e = e.args[0]
+        return e
+
+    def elem_store(st, name=None, text=None):
+        if not (isinstance(st, ast.Assign) and len(st.targets) == 1 and isinstance(st.targets[0], ast.Subscript)):
+            return False
+        if name is not None:
+            return isinstance(st.value, ast.Name) and st.value.id == name
+        return _is_pure_test(st.value) and ast.unparse(strip_bool(st.value)) == text
+    for node in ast.walk(fn):
+        for fld in ("body", "orelse", "finalbody"):
+            block = getattr(node, fld, None)
+            if not (isinstance(block, list) and block and isinstance(block[0], ast.stmt)):
+                continue
+            i = 0
+            while i < len(block):
+                st = block[i]
+                test = None
+                j = i
+                if isinstance(st, ast.Assign) and len(st.targets) == 1 and isinstance(st.targets[0], ast.Name) and _is_pure_test(st.value):
+                    x = st.targets[0].id
+                    j = i + 1
+                    while j < len(block) and elem_store(block[j], name=x):
+                        j += 1
+                    k = j - (i + 1)
+                    if k >= 1 and uses.get(x, 0) == k + 1:
+                        test, stores, first = strip_bool(st.value), block[i + 1:j], i
+                elif elem_store(st, text=ast.unparse(strip_bool(st.value))) if isinstance(st, ast.Assign) and len(st.targets) == 1 and _is_pure_test(getattr(st, "value", None)) else False:
+                    text = ast.unparse(strip_bool(st.value))
+                    j = i
+                    while j < len(block) and elem_store(block[j], text=text):
+                        j += 1
+                    if j - i >= 1:
+                        test, stores, first = strip_bool(st.value), block[i:j], i
+                if test is None:
+                    i += 1
+                    continue
+                mk = lambda val: [ast.copy_location(ast.Assign(targets=[copy.deepcopy(s_.targets[0])], value=ast.Constant(value=val)), s_) for s_ in stores]     # noqa: E731
+                new = ast.copy_location(ast.If(test=copy.deepcopy(test), body=mk(True), orelse=mk(False)), st)
+                ast.fix_missing_locations(new)
+                block[first:j] = [new]
+                n += 1
+                i = first + 1
+    return n
+
+
 def desugar_match(trees: Dict[str, ast.Module]) -> int:
     n = 0
     for tree in trees.values():
@@ -1524,6 +1640,8 @@ def desugar_match(trees: Dict[str, ast.Module]) -> int:
                     ast.fix_missing_locations(tree)
         for fn in [x for x in ast.walk(tree) if isinstance(x, (ast.FunctionDef, ast.AsyncFunctionDef))]:
             if _desugar_literal_table_loops(fn):
+                ast.fix_missing_locations(tree)
+            if _desugar_bool_stores(fn):
                 ast.fix_missing_locations(tree)
         if any(isinstance(x, ast.Attribute) and x.attr == "count" and isinstance(x.value, ast.Name) and x.value.id == "itertools" for x in ast.walk(tree)):
             for fn in [x for x in ast.walk(tree) if isinstance(x, (ast.FunctionDef, ast.AsyncFunctionDef))]:
